@@ -207,7 +207,8 @@ func runC18(r *core.Run) {
 			}
 		case 3:
 			k := rng.Intn(len(b) + 1)
-			ins := []string{"'", "\"", "`", "(", ")", "\\", "\n", "/*", "--", ";", "@", "\x00", "\xff", "é", "0x", "1e", "::"}[rng.Intn(17)]
+			ins := []string{"'", "\"", "`", "(", ")", "\\", "\n", "/*", "--", ";", "@", "\x00", "\xff", "é", "0x", "1e", "::",
+				"/*\r\n*/", "/* a\r\n b\r\n c */\r\n", "\r\n", "\r", "-- x\r\n", "/* é\n */"}[rng.Intn(23)]
 			b = append(b[:k], append([]byte(ins), b[k:]...)...)
 		case 4:
 			b = append(b, b...)
